@@ -42,7 +42,9 @@ pub const F_ABORTED_FEED: usize = 28;
 pub const F_MARATHON: usize = 29;
 pub const F_UNWINDING: usize = 30;
 pub const F_LIAR: usize = 31;
-pub const N_FAULTS: usize = 32;
+pub const F_MISPLACED: usize = 32;
+pub const F_STDIO_FAILS: usize = 33;
+pub const N_FAULTS: usize = 34;
 pub const FAULT_NAMES: [&str; N_FAULTS] = [
     "drop",
     "dup",
@@ -76,6 +78,8 @@ pub const FAULT_NAMES: [&str; N_FAULTS] = [
     "marathon",
     "call-from-unwinding-destructor",
     "self-contradicting-message",
+    "misplaced-scanner",
+    "stdio-write-fails(runs)",
 ];
 
 /// Per-property weights. One world, shifted towards the property's subject.
@@ -129,9 +133,15 @@ pub fn add_hops(t: &mut Trace, r: &mut Rng, p: &Preset, stats: &mut Probes) {
             continue;
         }
         // a quarter of the windows are "called from a destructor while the thread is unwinding"
-        if r.chance(1, 4) {
+        let kind = r.below(8);
+        if kind < 2 {
             t.events.insert(pos, Ev::Unwinding { n });
             stats.faults_fired[F_UNWINDING] += 1;
+        } else if kind < 4 {
+            // where the scanner lives: offsets 1..7 modulo 8, for a longer stretch of calls
+            let offset = 1 + r.below(7) as u8;
+            t.events.insert(pos, Ev::Misplaced { n: n.saturating_mul(5), offset });
+            stats.faults_fired[F_MISPLACED] += 1;
         } else {
             t.events.insert(pos, Ev::Hop { n });
             any = true;
@@ -266,6 +276,14 @@ pub fn add_liars(t: &mut Trace, r: &mut Rng, stats: &mut Probes) {
 pub fn pick_env_mode(t: &mut Trace, r: &mut Rng) {
     if r.below(30) == 0 {
         t.env_mode = 1 + r.below(3) as u8;
+    }
+}
+
+/// Does the process's stdout/stderr accept writes made by library code? One run in 30: no (EIO).
+pub fn pick_stdio(t: &mut Trace, r: &mut Rng, stats: &mut Probes) {
+    if r.below(30) == 0 {
+        t.stdio_fails = true;
+        stats.faults_fired[F_STDIO_FAILS] += 1;
     }
 }
 
@@ -718,7 +736,7 @@ impl<'a> Gen<'a> {
         if cfg.read_step_ns > 0 {
             g.stats.faults_fired[F_CLOCK_TICK] += 1;
         }
-        (Trace { timeout_ns: cfg.timeout_ns, read_step_ns: cfg.read_step_ns, ctor_default: cfg.ctor_default, env_mode: 0, events: g.ev }, cfg)
+        (Trace { timeout_ns: cfg.timeout_ns, read_step_ns: cfg.read_step_ns, ctor_default: cfg.ctor_default, env_mode: 0, stdio_fails: false, events: g.ev }, cfg)
     }
 
     fn fire(&mut self, f: usize, ch: Option<u8>) {
